@@ -27,8 +27,10 @@ PreserveChars == {".", "?", "!", ",", ":", ";", "-", "_", ")", "}", "]", "'", "\
 Budget == 5000      \* ms per call
 
 VARIABLES l, cfg, comp, lastLen, shown, ongoing,
-          upd       \* update-engine was called since the context was created
-vars == <<l, cfg, comp, lastLen, shown, ongoing, upd>>
+          upd,      \* update-engine was called since the context was created
+          ended,    \* a terminating event happened since the context was created
+          wbs       \* fixed method: a backspace was used in the word being composed
+vars == <<l, cfg, comp, lastLen, shown, ongoing, upd, ended, wbs>>
 
 E == Rec[l]
 Is(ev) == l <= Len(Rec) /\ E.ev = ev
@@ -49,7 +51,7 @@ On(f) == \/ Focus = f \/ Focus = "ALL"
 OnKind == On("C02") \/ (Focus = "C11" /\ upd)
 
 NoCfg == [method |-> "none"]
-Init == l = 1 /\ cfg = NoCfg /\ comp = <<>> /\ lastLen = 0 /\ shown = FALSE /\ ongoing = FALSE /\ upd = FALSE
+Init == l = 1 /\ cfg = NoCfg /\ comp = <<>> /\ lastLen = 0 /\ shown = FALSE /\ ongoing = FALSE /\ upd = FALSE /\ ended = FALSE /\ wbs = FALSE
 
 Phon == cfg.method = "phonetic"
 
@@ -72,11 +74,31 @@ Returned(text) ==
           /\ Require(E.kind = "full" => E.text = text, "C02: auxiliary text is not the composition"))
     /\ (On("C06") => Require((E.kind \in {"single", "full"} /\ E.pre0 # <<>>) => E.ongoing, "C06: non-empty pre-edit text but no ongoing session"))
 
+\* ----- the shadow: a brand-new context over the same configuration and user files, given the surviving text ------------
+\* The recorder (driver "shadow") compares the rendering of the returned suggestion with the one a brand-new context returns
+\* for the surviving text (phonetic: the characters of the composition; fixed: the keys of the word, as long as no backspace
+\* was used in it) and logs fresh = "eq" | "diff" | "skip" (not sampled) | "na" (nothing to compare).  The comparison is owed
+\*   C05  in the phonetic method at every event (history independence; warm caches);
+\*   C06  after any terminating event of this context (it behaves from then on like a newly created one);
+\*   C09  in the phonetic method (a context created over the same user-data directory preselects the same candidate);
+\*   C11  after an update-engine call (the updated context behaves like one created with that configuration).
+Fresh == IF "fresh" \in DOMAIN E THEN E.fresh ELSE "skip"
+ShadowOn == \/ Focus = "ALL"
+            \/ (Focus \in {"C05", "C09"} /\ Phon)
+            \/ (Focus = "C06" /\ ended)
+            \/ (Focus = "C11" /\ upd)
+\* comparable: the specification's own view (a recorder that answers "na" where a comparison is possible is rejected)
+Shadow(comparable, c2) ==
+    ShadowOn =>
+        /\ Require(Fresh # "diff", "C05/C06/C09/C11: the suggestion differs from the one a brand-new context gives for the surviving text")
+        /\ Require((Fresh = "na" /\ E.kind \in {"single", "full"}) => ~comparable, "the recorder skipped a comparison that was possible")
+
 SetLast == /\ lastLen' = (IF E.kind = "full" THEN E.len ELSE IF E.kind = "single" THEN 1 ELSE 0)
            /\ shown' = (E.kind \in {"single", "full"} /\ lastLen' > 0)
            /\ ongoing' = E.ongoing
 
-New == /\ Is("new") /\ cfg' = E.cfg /\ comp' = <<>> /\ lastLen' = 0 /\ shown' = FALSE /\ ongoing' = FALSE /\ upd' = FALSE /\ l' = l + 1
+New == /\ Is("new") /\ cfg' = E.cfg /\ comp' = <<>> /\ lastLen' = 0 /\ shown' = FALSE /\ ongoing' = FALSE /\ upd' = FALSE
+       /\ ended' = FALSE /\ wbs' = FALSE /\ l' = l + 1
 
 Key ==
     /\ Is("key") /\ cfg # NoCfg
@@ -90,12 +112,16 @@ Key ==
                                         "C02: phonetic list expected, preselected index inside it (or the echoed byte, F05)"))
                /\ (OnKind => Require(~cfg.sug => E.kind # "full", "C02/C11: suggestions are off but a list-style suggestion was returned"))
                /\ (On("C06") => Require(E.ongoing = (c2 # <<>>), "C06: session flag does not match the typed characters"))
+               /\ Shadow(c2 # <<>>, c2)
+               /\ wbs' = wbs
        ELSE LET val == ValueOf(E.code, E.mod) IN
             IF val = <<>>
             THEN \* a key without assignment changes nothing
                  /\ comp' = comp
                  /\ Returned(comp)
                  /\ (On("C04") => Require(E.shown = comp /\ E.ongoing = ongoing, "C04: a key without assignment changed the composition"))
+                 /\ Shadow(~wbs, comp)
+                 /\ wbs' = wbs
             ELSE /\ comp' = E.shown
                  /\ Returned(E.shown)
                  /\ (On("C12") => Require((~cfg.o.karorder /\ NormativeKey(comp, val)) => E.shown \in PropKeySet(comp, val, cfg.o),
@@ -104,7 +130,9 @@ Key ==
                  /\ (OnKind => Require(~cfg.sug => E.kind # "full", "C02/C11: suggestions are off but a list-style suggestion was returned"))
                  /\ (On("C06") => Require(IF cfg.o.karorder THEN (E.shown # <<>> => E.ongoing) ELSE E.ongoing = (E.shown # <<>>),
                                           "C06: session flag does not match the composed text"))
-    /\ SetLast /\ UNCHANGED <<cfg, upd>> /\ l' = l + 1
+                 /\ Shadow(~wbs, comp)
+                 /\ wbs' = wbs
+    /\ SetLast /\ UNCHANGED <<cfg, upd, ended>> /\ l' = l + 1
 
 Backspace ==
     /\ Is("bs") /\ cfg # NoCfg
@@ -117,6 +145,10 @@ Backspace ==
                 /\ Require(E.kind = "empty" => ~E.ongoing, "C06: a backspace returned an empty suggestion but the session is still ongoing")
                 /\ Require((E.ctrl /\ ongoing) => (E.kind = "empty" /\ ~E.ongoing), "C06: ctrl-backspace must end the session"))
           /\ (On("C12") => Require((exact /\ ~Phon /\ E.kind # "empty") => E.shown = expected, "C12: backspace must remove exactly the last code point"))
+          /\ Shadow(Phon, expected)
+          \* a backspace that returns an empty suggestion, and ctrl-backspace on an ongoing session, are terminating events
+          /\ ended' = (ended \/ (E.kind = "empty" /\ ongoing))
+          /\ wbs' = (~Phon /\ E.kind # "empty")
     /\ SetLast /\ UNCHANGED <<cfg, upd>> /\ l' = l + 1
 
 Commit ==
@@ -125,21 +157,21 @@ Commit ==
     /\ (On("C01") => Require(E.panic = "", "C01: commit panicked"))
     /\ E.panic = ""
     /\ (On("C06") => Require(~E.ongoing, "C06: still ongoing after a commit"))
-    /\ comp' = <<>> /\ lastLen' = 0 /\ shown' = FALSE /\ ongoing' = E.ongoing /\ UNCHANGED <<cfg, upd>> /\ l' = l + 1
+    /\ comp' = <<>> /\ lastLen' = 0 /\ shown' = FALSE /\ ongoing' = E.ongoing /\ ended' = TRUE /\ wbs' = FALSE /\ UNCHANGED <<cfg, upd>> /\ l' = l + 1
 
 Finish ==
     /\ Is("finish")
     /\ (On("C01") => Require(E.panic = "", "C01: finish panicked"))
     /\ E.panic = ""
     /\ (On("C06") => Require(~E.ongoing, "C06: still ongoing after finish"))
-    /\ comp' = <<>> /\ lastLen' = 0 /\ shown' = FALSE /\ ongoing' = E.ongoing /\ UNCHANGED <<cfg, upd>> /\ l' = l + 1
+    /\ comp' = <<>> /\ lastLen' = 0 /\ shown' = FALSE /\ ongoing' = E.ongoing /\ ended' = TRUE /\ wbs' = FALSE /\ UNCHANGED <<cfg, upd>> /\ l' = l + 1
 
 Update ==
     /\ Is("update")
     /\ Require(~ongoing /\ comp = <<>>, "driver left the contract: update-engine while a session is ongoing")
     /\ (On("C01") => Require(E.panic = "", "C01: update-engine panicked"))
     /\ E.panic = ""
-    /\ cfg' = E.cfg /\ comp' = <<>> /\ lastLen' = 0 /\ shown' = FALSE /\ ongoing' = E.ongoing /\ upd' = TRUE /\ l' = l + 1
+    /\ cfg' = E.cfg /\ comp' = <<>> /\ lastLen' = 0 /\ shown' = FALSE /\ ongoing' = E.ongoing /\ upd' = TRUE /\ wbs' = FALSE /\ UNCHANGED ended /\ l' = l + 1
 
 \* appended by the recorder's watchdog / signal handler: an engine call hung, or the code under test killed the process
 Panic == Is("panic") /\ Fail("an engine call did not return, or the process was killed by a fatal signal") /\ UNCHANGED vars
